@@ -109,7 +109,7 @@ def gen_recipe(r):
     if c < 0.18:
         return ["num", r.choice([1, 1.0, True, 0, 0.5, 2, 2.0, ["np", "float64", 0.5], ["np", "float64", 2.0], ["np", "int64", 2], ["np", "float32", 0.5]])]
     if c < 0.36:
-        return ["tensor", r.randrange(3), r.choice([["i"], ["i", "j"], ["j", "i"], []])]
+        return ["tensor", r.randrange(3), r.choice([["i"], ["i", "j"], ["j", "i"], []]), r.choice(["Tensor", "Tensor", "to_funsor", "bint"])]
     if c < 0.48:
         return ["binary", r.choice(BIN_OPS), h(), h()]
     if c < 0.55:
@@ -396,6 +396,15 @@ class Sim:
                 inputs = OrderedDict(j=f.Bint[2], i=f.Bint[3])
             else:
                 inputs = OrderedDict(zip(names, [f.Bint[2], f.Bint[3]]))
+            how = recipe[3] if len(recipe) > 3 else "Tensor"
+            if how == "to_funsor" and names:
+                # the conversion API with dim_to_name: the same request as Tensor(arr, inputs)
+                d2n = {i - len(names): n for i, n in enumerate(inputs)}
+                out_dom = f.Reals[tuple(arr.shape[len(names) :])]
+                return (lambda: f.to_funsor(arr, out_dom, d2n)), ("tensor", arr, tuple(inputs.items()))
+            if how == "bint":
+                # a bounded-integer Tensor over the (float) slot array: interned on (array, inputs, dtype) like any other
+                return (lambda: f.Tensor(arr, inputs, 7)), ("tensor", arr, tuple(inputs.items()) + (("dtype", 7),))
             return (lambda: f.Tensor(arr, inputs)), ("tensor", arr, tuple(inputs.items()))
         if t == "binary":
             a, b = fh(recipe[2]), fh(recipe[3])
@@ -558,7 +567,7 @@ class Sim:
                     "Tensor(slot %d array) returned a tensor whose data is a different array object (recycled id=%s)"
                     % (ev["recipe"][1], id(arr) == id(obj.data)),
                 )
-            if tuple(obj.inputs.items()) != req[2]:
+            if tuple(obj.inputs.items()) != tuple(x for x in req[2] if x[0] != "dtype"):
                 raise Violation("I3-stale-object", "Tensor built with inputs %r has inputs %r" % (req[2], tuple(obj.inputs.items())))
         if ev["recipe"][0] == "op":
             cname, params = ev["recipe"][1][:2]
